@@ -7,6 +7,8 @@ the predicted draw of the natively created node); boundary priorities (0, 2^32-1
 usize::MAX; Treap wrappers and TreapNode building blocks."""
 ID = "C03"
 CRATE = "c03"
+# sibling sources whose edits enlarge the quick correspondence (fingerprints in source_pins.json)
+SOURCES = ["rlib/rand/src/lcg.rs"]
 COQ_DIR = "C03"
 COQ_DEPS = []
 PROFILES = ["debug", "release"]
